@@ -217,6 +217,8 @@ func c16Case(w *rt.W, st *c16State, f *c16Formatter, vi, flag int, prefix []byte
 }
 
 func runC16(c *rt.Ctx) {
+	configuredEpisode() // the process has a past: failing configured Formatters and Parsers, since restored
+	c.Extra("history_before_the_streams", "an episode of failing configured Formatter/Parser variables in all five packages")
 	c.SetRule("for each of the five DefaultFormatter functions: boundary values x every format-flag subset (date 2, roman 128, sem 2, size 4, uu 2) x prefixes {empty, each single byte 0..255, strings over the formatter's own alphabet, seeded binary strings of length 1..40} x spare capacities {0,1,need-1,need,need+1,64,seeded} (all 0..64 in thorough); " +
 		"the buffer is carved from a backing array with known content so in-place edits and writes past the capacity are visible; ID.URN against \"urn:uuid:\"+String for seeded IDs. " +
 		"distinct_nontrivial counts distinct (formatter, value, flags, prefix) combinations whose prefix contains a byte the formatter can emit, each enumerated once")
